@@ -11,7 +11,7 @@
 (* on TLC's worker threads.  A rejected event is an invariant violation    *)
 (* whose state names the line.                                             *)
 (***************************************************************************)
-EXTENDS Code, Layout, Envelope, Json, IOUtils
+EXTENDS Code, Layout, Envelope, Json, IOUtils, Integers
 
 Basis16 == <<1, 44234, 15374, 5694, 50562, 60718, 37196, 16402,
              27800, 4312, 27250, 47360, 64952, 64308, 65336, 39198>>
@@ -115,6 +115,14 @@ DecOK(e) ==
           /\ e.rlenok
           /\ e.rdigall = e.odigall
   /\ e.again = 0                                                      \* None forever after exhaustion
+  \* nth / skip / step_by / last / count on fresh iterators agree with the missing set
+  /\ (Has(e, "proto") =>
+        LET ys == SetToSortSeq(missing, <)  n == Len(ys)  p == e.proto
+            At(k) == IF k < n THEN ys[k+1] ELSE -1 IN
+        /\ \A t \in DOMAIN p.nth : p.nth[t][2] = At(p.nth[t][1])
+        /\ p.skip1 = (IF n = 0 THEN 0 ELSE n - 1) /\ p.cnt = n /\ p.second = At(1)
+        /\ p.last = (IF n = 0 THEN -1 ELSE ys[n])
+        /\ \A t \in DOMAIN p.step2 : p.step2[t] = At(2 * (t - 1)))
   /\ \A t \in DOMAIN e.probes : e.probes[t][2] = (e.probes[t][1] \in missing)
 
 (***************************************************************************)
